@@ -809,7 +809,7 @@ class Program:
     def _resolve_named_consts(self):
         """`buf.push(OP_PING)` and `buf.push(0x07)` must look the same to the rules: give every operand
         that names an integer const item the item's evaluated value (the name is kept)"""
-        vals = {k: c["v"] for k, c in self.consts.items()}
+        vals = {k: c["v"] for k, c in self.consts.items() if not isinstance(c["v"], list)}
 
         def fix(o):
             k = o.get("k") if isinstance(o, dict) else None
@@ -842,7 +842,7 @@ class Program:
              and (f.impl_trait == trait)]
         if len(c) != 1:
             raise AnchorMissing("method `%s` of `%s`%s: %d candidates" % (name, adt, " as " + trait if trait else "", len(c)))
-        return c[0]
+        return self.fns[c[0].id]        # a lookup by name: the inlined view when the inlined evaluation is on
 
     def find_fns(self, pattern):
         rx = re.compile(pattern)
